@@ -227,11 +227,18 @@ def second_spec(spec, rng):
     return s2
 
 
-def gen_ops(rng, spec, n_ops, *, allow_inplace=True, allow_flows=True, allow_steps=True):
+def gen_ops(rng, spec, n_ops, *, allow_inplace=True, allow_flows=True, allow_steps=True, allow_derive=False):
     meths = methods_for(spec)
     constrained = spec["kind"] in ("con", "gcon")
     ops = []
+    # second system object DERIVED from the first one in mid-history (copy / deepcopy / pickle round trip, then
+    # given another metric where the class has a settable one) instead of built independently
+    derive_at = rng.randrange(1, max(2, n_ops - 2)) if allow_derive and rng.random() < 0.3 else None
     while len(ops) < n_ops:
+        if derive_at is not None and len(ops) >= derive_at:
+            ops.append(["derive", 0, rng.choice(["copy", "deepcopy", "pickle"])])
+            derive_at = None
+            continue
         r = rng.random()
         si = rng.randrange(4)
         sysi = rng.randrange(2)
@@ -284,6 +291,7 @@ class Machine:
         from mici.states import ChainState
 
         self.spec = spec
+        self._ispec = ispec
         self.counter = counter
         hooked = counter is not None
         self.systems = [zoo.build_system(spec, hooked="0:" if hooked else False)[0], zoo.build_system(spec2, hooked="1:" if hooked else False)[0]]
@@ -463,6 +471,23 @@ class Machine:
                             state.pos += d
                         else:
                             state.mom += d
+                elif kind == "derive":
+                    if self.counter is not None:
+                        self.skipped += 1
+                        continue
+                    import copy as _copy
+
+                    base = self.systems[0]
+                    how = op[2]
+                    new_sys = _copy.copy(base) if how == "copy" else _copy.deepcopy(base) if how == "deepcopy" else pickle.loads(pickle.dumps(base))
+                    m2 = getattr(self.systems[1], "metric", None)
+                    if m2 is not None and not callable(m2) and not callable(getattr(new_sys, "metric", lambda: 0)):
+                        new_sys.metric = m2
+                    self._keepalive = getattr(self, "_keepalive", []) + [self.systems[1], self.integrators[1], self.transitions[1]]
+                    self.systems[1] = new_sys
+                    self.integrators[1] = zoo.build_integrator(new_sys, self._ispec)
+                    self.transitions[1] = mici.transitions.MetropolisStaticIntegrationTransition(new_sys, self.integrators[1], n_step=2)
+                    self.has = [{h for h in hs_ if h[0] != 1} for hs_ in self.has]
                 elif kind == "copy":
                     new = state.copy(read_only=bool(op[2]))
                     self._add(new, bool(op[2]), set(self.has[si]))
